@@ -31,6 +31,8 @@ def resolve(spec):
         obj = obj.__func__
     if isinstance(obj, property):
         obj = obj.fget
+    if type(obj).__name__ == "_lru_cache_wrapper":
+        obj = obj.__wrapped__  # memoisation is transparent for the contract of the wrapped function
     return obj
 
 
